@@ -66,7 +66,7 @@ def recognise(s):
     return a[0] + b[0] + sec
 
 
-ALPH = '0123456789nsewNSEWXz_a '
+ALPH = '0123456789nsewNSEWXz_a \n\t\r-.٣ſ'
 
 
 def edits(s, r, k):
